@@ -3,7 +3,17 @@
 
    A circuit in program order is a list of operations; an operation is a leaf gate
    (id, absolute location) or a block (CircuitGate) with a location and a body whose
-   locations are relative to the block (inner qudit j = j-th qudit of the block). *)
+   locations are relative to the block (inner qudit j = j-th qudit of the block).
+
+   PARAMETERS.  A leaf id stands for (gate, parameter values).  For a leaf inside a block the
+   parameter values are the slice of the parameters carried by the block OPERATION in the
+   outer circuit (Operation.params), NOT the ones stored in the CircuitGate's template
+   circuit: Circuit.unfold instantiates `gate._circuit.copy()` with `op.params`, and
+   set_params / instantiate / freeze_param only ever update Operation.params.  The body of a
+   `Blk` is therefore a field of the operation; two operations that share one CircuitGate
+   object are two different `Blk` values.  The correspondence run builds the model tree from
+   the real circuit accordingly (template instantiated with the operation's parameters),
+   on inputs whose blocks were re-parameterised after being built and on shared CircuitGates. *)
 From Coq Require Import List Arith Bool.
 Import ListNotations.
 
